@@ -48,7 +48,8 @@ RB = dict(crate="ohkami", strength="bounded", timeout=900, unwindset=UW, tier="q
 HARNESSES += [
     H("c03_complete_204_contract", functions=["response::Response::complete"], clauses=["status 204 => no Content-Length, Content::None, size updated; for every prior (Content-Length present?, body present?)"],
       bound="finite case split over (Content-Length present, payload present)", **RB),
-    H("c03_set_payload_contract", functions=["response::Response::set_payload", "response::Response::set_text", "response::Response::drop_content", "ohkami_lib::num::itoa"],
+    # thorough tier: decided in 190-230 s when run alone, but "CBMC out of memory" in 2 of 5 runs beside other queries
+    H("c03_set_payload_contract", tier_override="thorough", functions=["response::Response::set_payload", "response::Response::set_text", "response::Response::drop_content", "ohkami_lib::num::itoa"],
       clauses=["Content-Length == decimal(body length), Content-Type set, size invariant, re-set replaces, drop_content removes both"],
       bound="body lengths 3 and 12 (itoa's full-domain contract is C20)", **RB),
 ]
